@@ -42,6 +42,7 @@ Apply(op) ==
       [] op.a = "ins_nt" -> IF S.active THEN InsertNoTurn(op.k) ELSE Skip(op)
       [] op.a = "ins_h" -> IF S.active THEN InsertHold(op.k) ELSE Skip(op)
       [] op.a = "drop_h" -> DropHeld
+      [] op.a = "ins_big" -> IF S.active THEN InsertBig(op.k) ELSE Skip(op)
       [] op.a = "rem" -> IF S.active THEN Remove(op.k) ELSE Skip(op)
       [] op.a = "get" -> IF S.active THEN Get(op.k) ELSE Skip(op)
       [] op.a = "sload" -> IF S.active THEN SLoad(op.k) ELSE Skip(op)
@@ -124,7 +125,7 @@ Bad(op, o, T, exp) ==
         memExp == [i \in 1 .. Len(KeySeq) |-> IF InMem(T, KeySeq[i]) THEN 1 ELSE 0]
         memTags ==
             \* the advice governs the insert (a later lookup may populate memory from disk)
-            IF op.a \in {"ins", "ins_nt", "ins_h"} /\ KeyLoc[op.k] = "ondisk" /\ \E i \in 1 .. Len(KeySeq) : KeySeq[i] = op.k /\ o.mem[i] = 1
+            IF op.a \in {"ins", "ins_nt", "ins_h", "ins_big"} /\ KeyLoc[op.k] = "ondisk" /\ \E i \in 1 .. Len(KeySeq) : KeySeq[i] = op.k /\ o.mem[i] = 1
             THEN {<<"C12", "ondisk_entry_retained_in_memory">>}
             ELSE IF o.mem = memExp THEN {} ELSE {<<"drift", "residency">>}
         dskExp == [i \in 1 .. Len(KeySeq) |-> IF T.index[Hash[KeySeq[i]]].kind = "addr" THEN 1 ELSE 0]
